@@ -355,6 +355,28 @@ def main(argv=None):
         cres = async_c.get()
         lres = async_l.get() if async_l else []
 
+    # A bounded stand-in that ran beside 16 solver processes may have seen the machine at its worst: what it reports
+    # (or a run that did not finish) is CONFIRMED by a second run on the now quieter machine, with every time budget of the
+    # harness multiplied (PYVC_BOUNDED_SLOW); only violations observed in both runs are reported.  Deterministic
+    # violations reproduce; a time-out of an overloaded machine does not.
+    if bres is not None:
+        kn = {k.get('bounded_id') for k in known_active}
+        fresh = [v for v in (bres.get('violations') or []) if v.get('id') not in kn]
+        if bres.get('error') == 'timeout' or fresh:
+            os.environ['PYVC_BOUNDED_SLOW'] = '4'
+            bres2 = run_venv(bounded_script, {'tier': tier, 'seed': seed}, timeout=(3000 if tier == 'thorough' else 900) * 3)
+            os.environ.pop('PYVC_BOUNDED_SLOW', None)
+            if bres.get('error') == 'timeout':
+                bres = bres2
+            elif not bres2.get('error'):
+                ids2 = {v.get('id') for v in (bres2.get('violations') or [])}
+                dropped = sorted({v.get('id') for v in fresh if v.get('id') not in ids2})
+                bres['violations'] = [v for v in bres['violations'] if v.get('id') in kn or v.get('id') in ids2]
+                if dropped:
+                    bres['unconfirmed'] = dropped
+                    print('   NOTE bounded stand-in: not reproduced by the confirmation run (slow machine?), not reported: '
+                          + ', '.join(dropped))
+
     violations = []     # (what, replay path)
     known_hits = []
     undecided = []
